@@ -7,12 +7,14 @@ def show(stage, path):
     return subprocess.run(['git', '-C', V, 'show', f':{stage}:{path}'], capture_output=True, text=True).stdout
 # known findings
 ours, theirs = json.loads(show(2, 'known_findings.json')), json.loads(show(3, 'known_findings.json'))
-seen, out = set(), []
+by, order = {}, []
 for f in ours['findings'] + theirs['findings']:
     k = (f['property'], f['key'])
-    if k not in seen:
-        seen.add(k); out.append(f)
-ours['findings'] = out
+    if k not in by:
+        by[k] = f; order.append(k)
+    elif f['status'].startswith('fixed') and not by[k]['status'].startswith('fixed'):
+        by[k] = f      # a repaired entry wins over the stale open one
+ours['findings'] = [by[k] for k in order]
 json.dump(ours, open(f'{V}/known_findings.json', 'w'), indent=1)
 # Main.lean
 o, t = show(2, 'lean/Main.lean'), show(3, 'lean/Main.lean')
